@@ -141,8 +141,6 @@ def edits(draw, structure, allow_hydrogens=True):
             for _i in range(n):
                 line = draw(st.sampled_from(JUNK))
                 where = draw(st.sampled_from(["start", "start", "any", "end"]))
-                if line == "ENDMDL\n":
-                    where = "end"
                 p = 0 if where == "start" else len(entries) if where == "end" else \
                     draw(st.integers(0, len(entries)))
                 entries.insert(p, line)
